@@ -240,24 +240,18 @@ impl<'a> Ctx<'a> {
     }
 
     /// apply Tamper(fields, dl) to wire bytes with `npts` leading points
-    fn tamper_bytes(&self, bytes: &[u8], npts: usize, fields: &Value, dl: i64, names: &[&str]) -> (Vec<u8>, Vec<(usize, usize)>) {
+    fn tamper_bytes(&self, bytes: &[u8], npts: usize, fields: &Value, dl: i64) -> (Vec<u8>, Vec<(usize, usize)>) {
         let mut v = bytes.to_vec();
         let mut ranges = Vec::new();
         for (fi, f) in fields.as_array().unwrap().iter().enumerate() {
-            if let Some(name) = f.as_str() {
-                let j = names.iter().position(|n| *n == name).unwrap_or_else(|| panic!("field {name}"));
-                if j < npts {
-                    v[48 * j..48 * (j + 1)].copy_from_slice(&self.random_point(fi as u64 + 1));
-                    ranges.push((48 * j, 48 * (j + 1)));
-                } else {
-                    // scalar named field of a signature ("e")
-                    let off = 48 * npts + 32 * (j - npts);
-                    v[off..off + 32].copy_from_slice(&self.random_scalar(fi as u64 + 1));
-                    ranges.push((off, off + 32));
-                }
+            let code = f.as_u64().unwrap() as usize;
+            if code > 100 {
+                let j = code - 101; // 0-based point
+                assert!(j < npts);
+                v[48 * j..48 * (j + 1)].copy_from_slice(&self.random_point(fi as u64 + 1));
+                ranges.push((48 * j, 48 * (j + 1)));
             } else {
-                let j = f.as_u64().unwrap() as usize; // 1-based scalar position
-                let off = 48 * npts + 32 * (j - 1);
+                let off = 48 * npts + 32 * (code - 1); // 1-based scalar position
                 v[off..off + 32].copy_from_slice(&self.random_scalar(fi as u64 + 11));
                 ranges.push((off, off + 32));
             }
@@ -343,15 +337,15 @@ impl<'a> Ctx<'a> {
                 let dl = a["dl"].as_i64().unwrap();
                 let new = match self.objs[h].clone() {
                     CObj::Sig { bytes, .. } => {
-                        let (v, rg) = self.tamper_bytes(&bytes, 1, &a["fields"], dl, &["A", "e"]);
+                        let (v, rg) = self.tamper_bytes(&bytes, 1, &a["fields"], dl);
                         CObj::Sig { bytes: v, tamper: Some((bytes, rg)) }
                     }
                     CObj::Proof { bytes, drawn, .. } => {
-                        let (v, rg) = self.tamper_bytes(&bytes, 3, &a["fields"], dl, &["Abar", "Bbar", "D"]);
+                        let (v, rg) = self.tamper_bytes(&bytes, 3, &a["fields"], dl);
                         CObj::Proof { bytes: v, tamper: Some((bytes, rg)), drawn }
                     }
                     CObj::Commit { bytes, blind, drawn, .. } => {
-                        let (v, rg) = self.tamper_bytes(&bytes, 1, &a["fields"], dl, &["C"]);
+                        let (v, rg) = self.tamper_bytes(&bytes, 1, &a["fields"], dl);
                         CObj::Commit { bytes: v, blind, tamper: Some((bytes, rg)), drawn }
                     }
                     c => c,
